@@ -57,8 +57,8 @@ class RestoreMachine(Machine):
         return []
 
 
-def run(ctx):
-    chk = Check('C10', ctx)
+def run(ctx, host=None):
+    chk = host.sub('C10') if host is not None else Check('C10', ctx)
     prog, K, E = ctx.prog, ctx.kinds, ctx.effects
     R1 = chk.rule('C10.R1', 'should_compress handles every CompressMode member with the constant result the mode demands; bool maps to YES/NO', 5)
     R2 = chk.rule('C10.R2', 'the compressed flag stored in the index row is the value that selected the writer\'s compressing branch, decided per object', 4)
